@@ -16,9 +16,7 @@ int main(void)
   m_is_admin = 1; m_has_pd = 0; m_has_st = 1; m_st = 7; m_has_ost = 0;
   m_has_trid = 1; m_trid_n = TRLEN; m_trid[0] = nondet_u8(); m_trid[1] = nondet_u8();
   if (type[0] == '0') m_has_trid = nondet_bool();
-  uint8_t d[ND]; for (int i = 0; i < ND; i++) { d[i] = nondet_u8(); VF_ASSUME(d[i] >= '0' && d[i] <= '9'); }
-  VF_ASSUME(digits_value(d) == expected);
-  uint8_t raw[16]; uint32_t rawn = raw_seq(raw, d);
+  uint8_t raw[12]; uint32_t rawn = raw_abs(raw, expected);
   cx_state = state; cx_expected = expected; cx_type = type[0]; cx_trid[0] = m_trid[0]; cx_trid[1] = m_trid[1]; cx_trid_n = TRLEN;
   uint8_t ret = vf_process(SESS, raw, rawn);
   VF_ASSERT(!__vf_exc_pending, "C22: no exception"); __vf_exc_pending = 0;
